@@ -341,8 +341,96 @@ def rule_r3(ctx: Ctx) -> None:
                 verdicts = [aligned(x) for x in srcs]
                 ok = False if any(v is False for v, _ in verdicts) else (None if any(v is None for v, _ in verdicts) else True)
                 why = next((y for v, y in verdicts if v is False), next((y for v, y in verdicts if v is None), ""))
+                if ok is not True and f.cls is not None:
+                    # the spelling is not one the syntactic rule knows: decide by the model (a chooser of a decider, interpreted on permuted offers)
+                    choosers = [g for g in prog.implementations(DECIDER, "choose_production_alternatives") if g.cls is not None and (g is f or (
+                        prog.is_subclass(g.cls, f.cls.fullname) and any(isinstance(x, ast.Call) and call_name(x) == f.name for x in ast.walk(g.node))))]
+                    for g in choosers[:1]:
+                        mok, mwhy = chooser_alignment(ctx, g)
+                        ok, why = mok, (mwhy if mok is not None else f"alignment decided neither by the spelling ({why}) nor by the model ({mwhy})")
                 ctx.ob("C19.R3", f, c, f"weights passed to choice_weighted are aligned with {norm(ch)[:40]}", ok, "" if ok else why)
     ctx.floor("C19.R3", n, 3, "weighted-choice call sites")
+
+
+def _weighted_chooser_call(ctx: Ctx, f: FunctionInfo, order: tuple, declared: dict, dist: dict, rec: tuple, depth: int, deepest: int):
+    """interpret the weight-aware chooser f on the alternatives x<i> in the given order; returns (options, effective weights) as handed to
+    choice_weighted, ("raise",) when the chooser rejects the offer, or a string saying why it was not followed"""
+    from ..modelinterp import Budget, Interp, Obj, Sym, UNKNOWN
+    prog = ctx.prog
+    alts = [Sym(t) for t in order]
+    ps = [p_ for p_ in f.params if p_ != "self"]
+    alts_p = "alternatives" if "alternatives" in ps else (ps[-2] if len(ps) >= 2 else ps[0])
+    ctx_p = "ctx" if "ctx" in ps else ps[-1]
+    captured: list = []
+
+    def call_model(it, call, env, args, kwargs):
+        nm = call_name(call)
+        if nm == "get_distance_to_terminal" and len(args) == 1 and isinstance(args[0], Sym):
+            return dist.get(args[0].tag, UNKNOWN)
+        if nm == "choice_weighted" and len(args) == 2 and isinstance(call.func, ast.Attribute):
+            captured.append((list(args[0]) if isinstance(args[0], list) else None, list(args[1]) if isinstance(args[1], list) else None))
+            return args[0][0] if isinstance(args[0], list) and args[0] else UNKNOWN
+        if nm == "choice" and args and isinstance(args[0], list) and args[0]:
+            return args[0][0]
+        if nm == "get_weights":
+            return dict(declared)                      # the interpreter keys symbolic objects by their tag
+        if nm == "get_max_node_depth":
+            return deepest
+        if nm == "get_min_tree_depth":
+            return min(dist.values())
+        return None
+
+    it = Interp(prog, f.cls, lambda *_: None, call_model, max_depth=6, max_traces=4)
+    it.heap[("grammar", "recursive_prods")] = [Sym(t) for t in rec]
+    it.heap[("grammar", "alternatives")] = {p_: [Sym(t) for t in sorted(order)] for p_ in ps if p_ not in (alts_p, ctx_p)}     # the grammar's own list, in registration order
+    it.heap[("grammar", "all_nodes")] = [Sym(t) for t in sorted(order)]
+    env = {"self": Sym("self"), "self.max_depth": 4, "self.grammar": Sym("grammar"), "self.random": Sym("random"), alts_p: list(alts),
+           ctx_p: Obj("LocalSynthesisContext", {"depth": depth, "nodes": 1, "expansions": 0, "dependent_values": {}})}
+    for p_ in ps:
+        env.setdefault(p_, Sym(p_))
+    try:
+        runs = it.run(f, env)
+    except Budget:
+        return "too many interpretations"
+    if len(runs) != 1 or runs[0][2]:
+        return runs[0][2][0] if runs and runs[0][2] else f"{len(runs)} interpretations (open condition at {it.fork_sites[:1]})"
+    if any(e.kind == "raise" for e in runs[0][0]) or not captured:
+        return ("raise",)
+    opts, eff = captured[-1]
+    if opts is None or eff is None or len(opts) != len(eff) or not all(isinstance(x, (int, float)) and not isinstance(x, bool) for x in eff) \
+            or not all(isinstance(o, Sym) and o.tag in declared for o in opts):
+        return f"the weights handed to choice_weighted are not numbers in the model ({eff!r}, {opts!r})"
+    return [o.tag for o in opts], list(eff)
+
+
+def chooser_alignment(ctx: Ctx, f: FunctionInfo):
+    """alignment decided by the model instead of by the spelling: offering the same three alternatives in another order must leave every
+    alternative with the effective weight it had (weights computed from a differently ordered list pair the wrong weight with an option)"""
+    declared = {"x1": 0.2, "x2": 0.3, "x3": 0.5}
+    und = None
+    for dist, rec, depth, deepest in (({"x1": 1, "x2": 2, "x3": 3}, ("x2",), 0, 5), ({"x1": 3, "x2": 1, "x3": 2}, (), 1, 4), ({"x1": 2, "x2": 2, "x3": 1}, ("x1", "x3"), 2, 7)):
+        ref = _weighted_chooser_call(ctx, f, ("x1", "x2", "x3"), declared, dist, rec, depth, deepest)
+        if isinstance(ref, str):
+            und = und or ref
+            continue
+        if ref == ("raise",):
+            continue
+        base = dict(zip(*ref))
+        for order in (("x3", "x1", "x2"), ("x2", "x3", "x1"), ("x3", "x2", "x1")):
+            got = _weighted_chooser_call(ctx, f, order, declared, dist, rec, depth, deepest)
+            if isinstance(got, str):
+                und = und or got
+                continue
+            if got == ("raise",):
+                continue
+            if list(got[0]) != list(order):
+                return False, f"offered {list(order)}, the options handed to choice_weighted are {got[0]}"
+            now = dict(zip(*got))
+            if now != base:
+                k = next(t for t in base if base[t] != now.get(t))
+                return False, (f"offered in the order {list(order)} the alternative {k} gets the effective weight {now.get(k)}, offered as ['x1', 'x2', 'x3'] it got "
+                               f"{base[k]}: the weights are not paired with the alternatives they belong to")
+    return (None, und) if und else (True, "")
 
 
 def rule_r5(ctx: Ctx) -> None:
